@@ -21,6 +21,8 @@ var (
 	tVersion    = ty{lean: "Version"}
 	tConstraint = ty{lean: "Constraint"}
 	tDep        = ty{lean: "Dep"}
+	tFilterOpts = ty{lean: "Trans.FilterOpts"}
+	tPtrSet     = ty{lean: "List Nat", kind: "ptrset"}
 )
 
 func transTablesFor(versionConsts map[string]int64) *transTables {
@@ -34,27 +36,37 @@ func transTablesFor(versionConsts map[string]int64) *transTables {
 			"Version":                       tVersion,
 			"ParsedConstraint":              tConstraint,
 			"versionDependency":             tDep,
+			"[]*repositoryPackage":          listOf(tPkg),
+			"map[*RepositoryPackage]string": tPtrSet, // only membership of a package is read: the set of the ids
+			"*filterOptions":                tFilterOpts,
 		},
 		fields: map[fieldKey]fieldVal{
-			{"Pkg", "Name"}:                 {".name", tText},
-			{"Pkg", "Version"}:              {".version", tText},
-			{"Pkg", "Origin"}:               {".origin", tText},
-			{"Pkg", "pinnedName"}:           {".pin", tText},
-			{"Pkg", "ProviderPriority"}:     {".priority", tNat},
-			{"Pkg", "Provides"}:             {".provides", listOf(tText)},
-			{"Pkg", "Repository()"}:         {"", tPkgRepo},
-			{"Pkg.repository", "URI"}:       {".repo", tText},
-			{"Version", "numbers"}:          {".numbers", listOf(tNat)},
-			{"Version", "letter"}:           {".letter", tNat},
-			{"Version", "preSuffix"}:        {".pre", tNat},
-			{"Version", "preSuffixNumber"}:  {".preNum", tNat},
-			{"Version", "postSuffix"}:       {".post", tNat},
-			{"Version", "postSuffixNumber"}: {".postNum", tNat},
-			{"Version", "revision"}:         {".rev", tNat},
-			{"Constraint", "Name"}:          {".name", tText},
-			{"Constraint", "version"}:       {".version", tText},
-			{"Constraint", "dep"}:           {".dep", tDep},
-			{"Constraint", "pin"}:           {".pin", tText},
+			{"Pkg", "Name"}:                   {".name", tText},
+			{"Pkg", "Version"}:                {".version", tText},
+			{"Pkg", "Origin"}:                 {".origin", tText},
+			{"Pkg", "pinnedName"}:             {".pin", tText},
+			{"Pkg", "ProviderPriority"}:       {".priority", tNat},
+			{"Pkg", "Provides"}:               {".provides", listOf(tText)},
+			{"Pkg", "Repository()"}:           {"", tPkgRepo},
+			{"Pkg", "RepositoryPackage"}:      {"", tPkg}, // the embedded *RepositoryPackage of a repositoryPackage
+			{"Pkg", "URL()"}:                  {"@Resolver.Pkg.url", tText},
+			{"Trans.FilterOpts", "allowPin"}:  {".allowPin", tText},
+			{"Trans.FilterOpts", "preferPin"}: {".preferPin", tText},
+			{"Trans.FilterOpts", "version"}:   {".version", tText},
+			{"Trans.FilterOpts", "installed"}: {".installed", tOptPkg},
+			{"Trans.FilterOpts", "compare"}:   {".compare", tDep},
+			{"Pkg.repository", "URI"}:         {".repo", tText},
+			{"Version", "numbers"}:            {".numbers", listOf(tNat)},
+			{"Version", "letter"}:             {".letter", tNat},
+			{"Version", "preSuffix"}:          {".pre", tNat},
+			{"Version", "preSuffixNumber"}:    {".preNum", tNat},
+			{"Version", "postSuffix"}:         {".post", tNat},
+			{"Version", "postSuffixNumber"}:   {".postNum", tNat},
+			{"Version", "revision"}:           {".rev", tNat},
+			{"Constraint", "Name"}:            {".name", tText},
+			{"Constraint", "version"}:         {".version", tText},
+			{"Constraint", "dep"}:             {".dep", tDep},
+			{"Constraint", "pin"}:             {".pin", tText},
 		},
 		calls: map[string]callVal{
 			"recv.getDepVersionForName":          {lean: "getDepVersionForName", t: tText},
@@ -62,6 +74,7 @@ func transTablesFor(versionConsts map[string]int64) *transTables {
 			"cachedResolvePackageNameVersionPin": {lean: "parseConstraint", t: tConstraint},
 			"CompareVersions":                    {lean: "Trans.compareVersionsInt", t: tInt},
 			"includesVersion":                    {lean: "includesVersion", t: tBool},
+			"(Dep).satisfies":                    {lean: "satisfies", t: tBool},
 			"cmp.Compare":                        {lean: "Trans.cmpCompare", t: tInt},
 		},
 		consts: map[string]constVal{
@@ -99,10 +112,13 @@ func transFiles() []transFile {
 			{file: versionGo, fn: "includesVersion", lean: "includesVersion"},
 			{file: versionGo, fn: "versionDependency.satisfies", lean: "satisfies"},
 		}},
-		{out: "TransResolver", imports: []string{"Apko.Model.Resolver", "Apko.Model.TransPrelude"}, prefix: "repo.go", targets: []transTarget{
+		{out: "TransResolver", imports: []string{"Apko.Model.Resolver", "Apko.Model.TransPrelude", "Apko.Generated.TransVersion"}, prefix: "repo.go", targets: []transTarget{
 			{file: repoGo, fn: "PkgResolver.getDepVersionForName", lean: "getDepVersionForName"},
 			{file: repoGo, fn: "PkgResolver.comparePackages", lean: "comparePackages", closure: true},
 			{file: repoGo, fn: "PkgResolver.conflictingVersion", lean: "conflictingVersion"},
+			// the part of filterPackages after the functional options were applied to `o`
+			{file: versionGo, fn: "filterPackages", lean: "filterPackages", after: "for _, opt := range opts", skip: []string{"opts"},
+				extra: [][2]string{{"o", "*filterOptions"}}},
 		}},
 	}
 }
@@ -118,7 +134,7 @@ func genTrans() {
 		}
 		b.WriteString("/-! Go functions translated to Lean definitions (extract/trans.go; whitelist in extract/trans_targets.go).\n" +
 			"The equality theorems `Generated.Trans.f = Model.f` are in `Apko/Proofs/Trans*.lean`. -/\n")
-		b.WriteString("namespace Apko.Generated.Trans\nopen Apko\n\n")
+		b.WriteString("set_option linter.unusedVariables false\nnamespace Apko.Generated.Trans\nopen Apko\n\n")
 		for _, tg := range tf.targets {
 			f := load(tg.file)
 			fd := f.fn(tg.fn)
